@@ -274,16 +274,16 @@ func PerpendicDistFromLineSqrD(pt, line1, line2 PointD) float64 {
 }
 
 func PerpendicDistFromLineSqr64(pt, line1, line2 Point64) float64 {
-	a := pt.X - line1.X
-	b := pt.Y - line1.Y
-	c := line2.X - line1.X
-	d := line2.Y - line1.Y
+	a := float64(pt.X - line1.X)
+	b := float64(pt.Y - line1.Y)
+	c := float64(line2.X - line1.X)
+	d := float64(line2.Y - line1.Y)
 
 	if c == 0 && d == 0 {
 		return 0
 	}
 
-	return float64(sqr(a*d-c*b)) / float64(c*c+d*d)
+	return sqr(a*d-c*b) / (c*c + d*d)
 }
 
 func Ellipse64(center Point64, radiusX, radiusY float64, steps int) Path64 {
